@@ -254,6 +254,8 @@ def check_case(inputs, output, sd, nested, sl, tier, seed, res, do_exec,
         # implementation pair): the sequence of intermediates produced must
         # be the sequence the tree reports for THAT order
         rec = ShapeRecorder()
+        if tier != "thorough" and sl and n >= 3:
+            orders = orders[:3]  # quick: all orders on the unsliced tree only
         for o in (orders if n <= 3 or tier == "thorough" else orders[:5]):
             oarg = (lambda node, rk=o: rk[node]) if isinstance(o, dict) else o
             steps, ok = nets.valid_order_of(tree, oarg)
